@@ -334,7 +334,10 @@ class Printer:
         if k == "neg":
             return wrap("-" + x(e[1], 9), PREC["unary"])
         if k == "not":
-            return wrap("not " + x(e[1], 9), PREC["unary"])
+            # koto's `not` takes a whole expression as its operand (`not a != b` is `not (a != b)`),
+            # so it is parenthesised whenever it is an operand itself, in both printing modes
+            s = "not " + x(e[1], 9)
+            return f"({s})" if prec > 0 else s
         if k == "bin":
             p = PREC[e[1]]
             # left-associative: the right operand needs strictly higher precedence
